@@ -856,4 +856,58 @@ theorem applyEdits_eq_subst {α} (l : List α) (new : List α) (spans : List (Na
       exact this.symm
     rw [e3, ← List.append_assoc, ← List.append_assoc, e4, List.append_assoc]
 
+/-! ### per-file search = nodes of the symbol; decidable faithfulness -/
+
+/-- The three searches of `findReferences`, by symbol kind. -/
+def locsOf (kind : Kind) (name : Bytes) (incl : Bool) : Path → Journal → List Loc :=
+  match kind with
+  | .account => accountLocs name incl
+  | .commodity => commodityLocs name incl
+  | .payee => payeeLocs name
+
+theorem findReferences_eq (kind : Kind) (name : Bytes) (r : Option Resolved) (pp : Path)
+    (cur : Option Journal) (incl : Bool) :
+    findReferences kind name r pp cur incl =
+      sortAndDedup (collect (journalsWithPaths r pp cur) (locsOf kind name incl)) := by
+  cases kind <;> rfl
+
+/-- Each search returns, for one file, exactly the tree's nodes of that symbol. -/
+theorem mem_locsOf (kind : Kind) (name : Bytes) (hne : name ≠ []) (incl : Bool) (path : Path)
+    (j : Journal) (l : Loc) :
+    l ∈ locsOf kind name incl path j ↔
+      ∃ s ∈ treeNodes j, s.isSym kind name incl = true ∧ l = ⟨path, s.range⟩ := by
+  have key : (∃ n ∈ treeTNodes j, Match n kind name incl ∧ l = locOf path n) ↔
+      ∃ s ∈ treeNodes j, s.isSym kind name incl = true ∧ l = ⟨path, s.range⟩ := by
+    simp only [treeNodes, List.mem_map]
+    constructor
+    · rintro ⟨n, hn, ⟨hk, hnm, hd⟩, hl⟩
+      refine ⟨n.toSpan, ⟨n, hn, rfl⟩, ?_, hl⟩
+      simp only [Span.isSym, TNode.toSpan, hk, hnm, decide_true, BEq.rfl, Bool.true_and,
+        Bool.or_eq_true, Bool.not_eq_true']
+      exact hd
+    · rintro ⟨s, ⟨n, hn, rfl⟩, hs, hl⟩
+      simp only [Span.isSym, TNode.toSpan, Bool.and_eq_true, beq_iff_eq,
+        Bool.or_eq_true, Bool.not_eq_true'] at hs
+      exact ⟨n, hn, ⟨of_decide_eq_true hs.1.1, hs.1.2, hs.2⟩, hl⟩
+  cases kind with
+  | account => rw [← key]; exact mem_accountLocs name incl path j l
+  | commodity => rw [← key]; exact mem_commodityLocs name hne incl path j l
+  | payee => rw [← key]; exact mem_payeeLocs name hne incl path j l
+
+
+theorem faithful_of_faithfulB (j : Journal) (spans : List Span) (h : faithfulB j spans = true) :
+    faithful j spans := by
+  simp only [faithfulB, Bool.and_eq_true, List.all_eq_true] at h
+  obtain ⟨⟨h1, h2⟩, h3⟩ := h
+  refine ⟨h1, fun s => ⟨fun hs => ?_, fun hs => ?_⟩⟩
+  · have := h2 s hs
+    simp only [List.any_eq_true, decide_eq_true_eq] at this
+    obtain ⟨t, ht, rfl⟩ := this
+    exact ht
+  · have := h3 s hs
+    simp only [List.any_eq_true, decide_eq_true_eq] at this
+    obtain ⟨t, ht, rfl⟩ := this
+    exact ht
+
+
 end HL.Lemmas.Refs
